@@ -183,6 +183,14 @@ func genC19(verifSeed int64, tier string, idx int) *core.Scenario {
 			}
 		}
 	}
+	if cs := gen.SizeConstants("storage"); len(cs) > 0 && r.Intn(400) == 0 {
+		// a size that the storage code itself names (a limit, a buffer): the entry is exactly that large, one less, one more
+		c := cs[r.Intn(len(cs))]
+		sp.PadTo = c + int64(r.Intn(3)) - 1
+		sp.PadDoc, sp.PadID = r.Intn(ndocs), r.Intn(nids)
+		sp.WriteSplit, sp.ReadChunk = nil, 0
+		sp.Steps = []Step{{K: "Store", D: sp.PadDoc, ID: sp.PadID, Via: "fs"}, {K: "Retrieve", ID: sp.PadID, Via: "fs"}, {K: "Store", D: sp.PadDoc, ID: sp.PadID, Via: "rw"}, {K: "Retrieve", ID: sp.PadID, Via: "fsnew"}}
+	}
 	sc := &core.Scenario{V: 1, Property: "C19", Engine: "disk", VerifSeed: verifSeed, Run: idx, RunSeed: seed}
 	sc.Sched = verifsim.Config{Seed: seed, Policy: "serial", MaxSteps: 400000000, MapOrder: "random"} // 64 KiB entries read byte by byte are legitimate work
 	sc.Spec = encodeSpec(sp)
@@ -467,6 +475,26 @@ func execC19(sc *core.Scenario) *core.Result {
 	e.models[sp.Path] = e.model
 	for _, d := range sp.Docs {
 		e.docs = append(e.docs, docFrom(d))
+	}
+	if sp.PadTo > 0 && sp.PadDoc < len(e.docs) && sp.PadID < len(sp.IDs) {
+		if d := e.docs[sp.PadDoc]; d.Metadata != nil {
+			keep := d.Metadata.Id
+			d.Metadata.Id = sp.IDs[sp.PadID]
+			target := int(sp.PadTo)
+			for tries := 0; tries < 8 && proto.Size(d) != target; tries++ {
+				if diff := target - proto.Size(d); diff > 0 {
+					d.Metadata.Comment += strings.Repeat("p", diff)
+				} else if -diff <= len(d.Metadata.Comment) {
+					d.Metadata.Comment = d.Metadata.Comment[:len(d.Metadata.Comment)+diff]
+				} else {
+					break
+				}
+			}
+			if proto.Size(d) == target {
+				res.Probes["entry of exactly a size the storage code names (+-1)"]++
+			}
+			d.Metadata.Id = keep
+		}
 	}
 	e.disk = newDisk(sp)
 	e.disk.WriteSplit = sp.WriteSplit
